@@ -1259,12 +1259,12 @@ def configs_for(prop, tier, seed):
         scheds = C03_SCHEDULES_QUICK if quick else C03_SCHEDULES_THOROUGH
         rule_sets = [{"main": ("Out", ""), "other": ("Out2", "")},
                      {"main": ("Out", " :naive"), "other": ("Out2", "")}]
-        profs = [p for p in profiles if p[0] in (("p3", "p60") if quick else ("p0", "p3", "p60", "skew", "p400"))]
+        profs = [p for p in profiles if p[0] in (("p3", "p60") if quick else ("p0", "p60", "p400"))]
         for sid, body in shapes:
             if quick and sid not in C03_SHAPES_QUICK:
                 continue
             cfgs = [(nd, prof, sd, sc, rl) for sc in scheds for rl in rule_sets for prof in profs
-                    for nd in ((False,) if quick else (False, True)) for sd in (seeds if not quick else seeds[:1])]
+                    for nd in ((False,) if quick else (False, True)) for sd in seeds[:1]]
             if any(gen.kind_of(nm) == "ctor" for nm in gen.parse_body(body).types):
                 # the same histories with top-level / rule-made unions in them (seed + 1000 switches them on): rows that
                 # only become matchable through rebuilding must be found by the next semi-naive run
